@@ -273,6 +273,10 @@ func c18Gen(g *core.Gen) {
 		for _, a := range dpFaultAlphabet {
 			for _, b := range dpFaultAlphabet {
 				g.Emit(&c18Case{Dec: &decProtoCase{Fmt: f, Prefix: []int{a, b}, Depth: decDepth, Fault: true}})
+				if f == "p1" {
+					// the same on a reference-written PAR1 set that lists files not saved in the parity set
+					g.Emit(&c18Case{Dec: &decProtoCase{Fmt: f, Prefix: []int{a, b}, Depth: decDepth, Fault: true, Ref: true}})
+				}
 			}
 		}
 	}
